@@ -36,7 +36,7 @@ void HistSim::opDeser(const Op& op, size_t ix) {
   beginOp(j, doc, region);
   Val* slot = viaSel ? mGetOrCreate(*node, s) : node;
   bool rootDoc = h->root && !viaSel && op.num("via") == 1;
-  Val image = mp ? v : jsonImage(v, kUseDouble);
+  Val image = mp ? v : jsonImage(v, kUseDouble, nullptr, kNaN, kInf);
   if (slot)
     assignContent(*slot, image);
   j.predicted = slot != nullptr;
@@ -52,7 +52,10 @@ void HistSim::opDeser(const Op& op, size_t ix) {
     RefMsgPackEncoder enc;
     bytes = enc.encode(v);
   } else {
-    RefJsonWriter w;
+    JsonSpelling sp;
+    sp.nan = kNaN;
+    sp.inf = kInf;
+    RefJsonWriter w(sp);
     bytes = w.write(v);
   }
   if (real_) {
@@ -171,9 +174,11 @@ void HistSim::opSer(const Op& op, size_t ix) {
         m = measureJson(src);
       }
       bool rawOk = true;
-      Val expect = jsonImage(*node, kUseDouble, &rawOk);
+      Val expect = jsonImage(*node, kUseDouble, &rawOk, kNaN, kInf);
       if (rawOk && !binRaw) {
         RefJsonParser p(out, kUseDouble);
+        p.allowNaN = kNaN;
+        p.allowInf = kInf;
         auto r = p.parseDocument();
         if (!r.ok)
           violate("C04:serialize-mismatch", "JSON output is not accepted by the reference parser: " + r.error + " in " + hexdump(out));
@@ -484,7 +489,7 @@ void observe(std::ostringstream& o, JsonVariantConst v, int depth) {
     << ',';
   // comparisons against scalars and strings
   o << (v == 0) << (v == 1) << (v < 1) << (v > 1.5) << (v == true) << (v == "a") << (v == std::string("42"))
-    << (v < "b") << (v == (const char*)nullptr) << ',';
+    << (v < "b") << ',';
   {
     std::string js, mp;
     serializeJson(v, js);
@@ -639,7 +644,10 @@ struct Gen {
       op.setu("h", pickRef());
     } else if (sel < 720) {
       op = mkop("copy");
-      op.setu("h", pickRef('v')).setu("src", pickRef());
+      size_t dst = pickRef('v'), src = pickRef();
+      for (int tries = 0; tries < 3 && src == dst; tries++)
+        src = pickRef();
+      op.setu("h", dst).setu("src", src);
       via(3);
     } else if (sel < 745) {
       op = mkop("cset");
@@ -670,7 +678,7 @@ struct Gen {
       dv.allowBin = false;
       dv.allowLinked = false;
       bool mp = r.chance(1, 2);
-      dv.allowNonFinite = mp;
+      dv.allowNonFinite = true;  // JSON: written as null, or NaN/Infinity where the build's dialect has them
       dv.allowBin = mp;
       dv.maxDepth = 3;
       Val v = genValue(r, dv);
@@ -770,7 +778,9 @@ namespace {
 
 struct RunResult {
   uint64_t hash = 0;
+  uint64_t obs = 0;
   uint64_t steps = 0;
+  uint64_t executedOps = 0;
   std::vector<uint64_t> failable;  // per op, fault-free run
 };
 
@@ -798,6 +808,8 @@ RunResult runOnce(const Plan& plan, const Options& o, char replica, std::string*
     resolveFill(oo, op);
     sim.step(op, i);
     rr.failable.push_back(sim.failableInLastOp());
+    if (sim.lastSkip.empty())
+      rr.executedOps++;
     if (observations) {
       observations->append(sim.observeAll());
       observations->push_back('\x1e');
@@ -805,6 +817,7 @@ RunResult runOnce(const Plan& plan, const Options& o, char replica, std::string*
   }
   sim.finish();
   rr.hash = t.h;
+  rr.obs = sim.obs.h;
   rr.steps = t.events;
   return rr;
 }
@@ -822,6 +835,7 @@ Outcome execute(const Plan& plan) {
       Options ol = o, oc = o;
       ol.replica = 'L';
       oc.replica = 'C';
+      oc.instBase = 1000;
       g_ledger.reset();
       HistSim L(ol, &tl, true), C(oc, &tc, true);
       for (size_t i = 0; i < plan.ops.size(); i++) {
@@ -847,7 +861,9 @@ Outcome execute(const Plan& plan) {
     }
     RunResult base = runOnce(plan, o, 0, nullptr);
     out.hash = base.hash;
+    out.obs = base.obs;
     out.steps = base.steps;
+    out.nontrivial = base.executedOps >= 3;
     if (o.mode == "faultenum") {
       // every single-failure position and every fail-from position of every operation
       for (size_t i = 0; i < plan.ops.size(); i++) {
